@@ -793,10 +793,13 @@ class Mailbox:
                     # add it to the list of executing commands (the list is
                     # empty so we only need to update this one command)
                     #
-                    if changed:
-                        imap_cmd.msg_set_as_set = self.msg_set_to_msg_seq_set(
-                            imap_cmd.msg_set, imap_cmd.uid_command
-                        )
+                    # NOTE: Not only when the resync found new messages: the
+                    #       command may have waited behind an EXPUNGE, which
+                    #       renumbers the messages.
+                    #
+                    imap_cmd.msg_set_as_set = self.msg_set_to_msg_seq_set(
+                        imap_cmd.msg_set, imap_cmd.uid_command
+                    )
 
                 self.executing_tasks.append(imap_cmd)
                 imap_cmd.ready.set()
@@ -817,6 +820,13 @@ class Mailbox:
                 )
                 return
             except asyncio.CancelledError:
+                # We are being shut down (eg: the mailbox is being deleted).
+                # `shutdown()` releases the commands still in the queue; the
+                # one we already took off the queue has to be released here
+                # or it would wait forever.
+                #
+                if imap_cmd is not None and not imap_cmd.ready.is_set():
+                    imap_cmd.ready.set()
                 return
             except Exception as e:
                 # We ignore all other exceptions because otherwise the
